@@ -32,21 +32,42 @@ CHECKS = {
  "C22": ("proptest DAG/cyclic graph generator; order-validity oracle with independent cycle detection",
          "Exploration: 2M (quick) / 40M (thorough) package graphs (multi-edges, holes, disconnected parts, back edges, self loops): compilation_order must be a permutation with dependencies first for acyclic graphs and an error for cyclic ones (cyclicity decided by the harness's own DFS).",
          "Graph sizes up to 39 nodes.", "4/C22", "vp"),
+ "C01": ("proptest program generator + reference interpreter (eager and lazy/poison semantics) and per-width operator tables on boundary-derived operands; oracle: FuelVM outcome of debug and release builds == reference",
+         "Exploration: (a) 40k (quick) / 2M (thorough) operator-table runs: one script per width u8..u256 with + - * / % & | ^ << >> comparisons ! and u64 narrowing, compiled at O0 and O1, on operand pairs derived to sit exactly on the checked boundaries (a+b = 2^w, a-b = -1, a*b just above/below max, division by zero), against big-integer arithmetic with the documented aborts; (b) 300 (quick) / 20k (thorough) generated scripts (ints u8..u256, bool, b256, tuples, structs, enums, arrays, if/while/match/break/continue/early return, calls, assert/require/log; shape knobs near-duplicate functions, register pressure, call chains, big aggregates) in an operand-masked variant (cannot abort in arithmetic; strict equality with the interpreter) and the plain variant, debug and release, 8 argument tuples each: return data, logged values and abort class must equal the reference interpreter's.",
+         "Fragment restrictions: shifts < width, run-time array indices taken modulo the length (upstream issue #7521: no bounds check is emitted), no recursion/asm/storage/heap types, e2e run corpus not included. Two recorded findings are attributed causally: dead arithmetic aborts eliminated (decided by the lazy reference semantics; release-only fallback rule counted separately) and memcpyprop_reverse (release without that pass agrees).", "12/C01", "vp"),
  "C03": ("proptest program generator x pass-pipeline generator; differential oracle on the FuelVM between the O0 pass list and the same list with registered IR passes inserted",
          "Exploration: 140 (quick) / 6000 (thorough) generated scripts x 2 emission variants; for each, every one of the 18 registered transforms is inserted alone after lower-init-aggr and before the mandatory O0 tail, plus 4 random sequences of 2-6 transforms (~6k / ~260k pipelines); the real backend must accept the IR and the bytecode must give the same return data, logs and revert/panic outcome as the baseline on 8 argument tuples.",
          "IR modules are the initial IR of generated scripts only (no contracts, no e2e corpus modules); pipelines whose IR fails verification are left to C04; three recorded findings are attributed by causal re-tests (dead arithmetic abort; memcpyprop_reverse; backend rejects cbr to one block with different arguments).", "12/C03", "vp"),
  "C04": ("proptest program generator + .ir corpus x random pass sequences; invariant oracle = IR verifier (SSA dominance, force_verify_ir) after every pass, no panic",
-         "Exploration: 3000 (quick) / 200k (thorough) cases: initial IR of generated scripts (80%) or a consistent .ir file of sway-ir/tests (20%), then lower-init-aggr and 1-12 passes drawn with repetition from the 18 transforms + module-verifier, each run through PassManager::run with verify_ssa_dominance and force_verify_ir; any IrError (except an over-reported `modified` flag) or panic is a violation, identified by pass + message.",
+         "Exploration: 4000 (quick) / 200k (thorough) cases: initial IR of generated scripts (80%) or a consistent .ir file of sway-ir/tests (20%), then lower-init-aggr and 1-12 passes drawn with repetition from the 18 transforms + module-verifier, each run through PassManager::run with verify_ssa_dominance and force_verify_ir; any IrError (except an over-reported `modified` flag) or panic is a violation, identified by pass + message.",
          "Hand-written corpus IR is admitted only if calls/branches are type-consistent and no never-written local is read (18 of 92 files excluded); a pass that reports `modified` although the text is unchanged is counted as benign.", "12/C04", "vp"),
  "C05": ("proptest program generator x pipeline stage; round-trip oracle print -> parse -> print (alpha-normalised, then strict fixpoint) + behavioural differential through the backend",
-         "Exploration: 2500 (quick) / 100k (thorough) IR texts taken at a random stage of the O0 / O1 pipelines of generated scripts and from the .ir corpus: the text must parse and verify, re-print to the same text up to the numbering of anonymous values/metadata, re-print byte-identically from then on, and (30% of cases) the pipeline continued from the re-parsed text must give bytecode with the same outcome on 8 argument tuples.",
+         "Exploration: 2000 (quick) / 100k (thorough) IR texts taken at a random stage of the O0 / O1 pipelines of generated scripts and from the .ir corpus: the text must parse and verify, re-print to the same text up to the numbering of anonymous values/metadata, re-print byte-identically from then on, and (30% of cases) the pipeline continued from the re-parsed text must give bytecode with the same outcome on 8 argument tuples.",
          "'Identical text' is read up to the printer's arena-key based value names; one recorded finding (entry-block parameter immutability flags are not read back) is attributed by a textual causal test.", "12/C05", "vp"),
  "C07": ("proptest program generator; differential oracle on the FuelVM between bytecode built with and without AbstractInstructionSet::optimize (cfg hook)",
-         "Exploration: 450 (quick) / 20k (thorough) generated scripts x 2 variants x O0/O1, each built normally and with the abstract-instruction optimizer switched off through a per-thread cfg hook; both bytecodes must give the same return data, logs and revert/panic outcome on 8 argument tuples; on a difference the seven sub-passes are switched off one by one to name the culprit.",
+         "Exploration: 300 (quick) / 20k (thorough) generated scripts x 2 variants x O0/O1, each built normally and with the abstract-instruction optimizer switched off through a per-thread cfg hook; both bytecodes must give the same return data, logs and revert/panic outcome on 8 argument tuples; on a difference the seven sub-passes are switched off one by one to name the culprit.",
          "Scripts only; the post-allocation peephole (AllocatedAbstractInstructionSet::optimize) is not switched.", "12/C07", "vp"),
  "C08": ("proptest program generator (register-pressure knob); invariant oracle = independent liveness recomputation over the observed allocation (cfg hook)",
          "Exploration: 420 (quick) / 20k (thorough) generated scripts (a third with >= 40 simultaneously live values and a call in between) x 2 variants x O0/O1; every function's allocation (~10k quick) is dumped as plain data through a cfg hook and checked: own CFG from labels/jumps, own backward liveness, no definition into a machine register holding another live virtual register (MOVE sources excepted), one machine register per virtual register, every spill-slot refill reached only by spills of the same register.",
          "def/use sets come from the allocator's own tables; the behavioural half is C02/C07's; spill slots beyond 12-bit offsets are not tracked.", "12/C08", "vp"),
+ "C09": ("proptest ABI type-tree/value generator; reference codec (own encoding-v1 codec cross-checked with fuels-core driven by the program's JSON ABI) vs. ReturnData/LogData of compiled scripts on the FuelVM",
+         "Exploration: 400 (quick) / 10k (thorough) generated type trees (depth <= 4; ints, bool, b256, str[N], str, arrays, tuples, generic structs/enums, Option/Result, Vec, Bytes, String) x 16 values: a script `main(x: T, raw: Bytes) -> T` built by the real forc_pkg::compile logs x, encode(x), abi_decode(encode(x)), projections, literals and abi_decode(raw); every log and the return data must equal the reference encoding, the JSON ABI must describe the generated tree, and fuels-core must decode the return data back.",
+         "Scripts only; printable-ASCII text; Vec <= 4, Bytes <= 13, str <= 16; one recorded finding (JSON ABI of an inferred tuple/array type of a generic field leaves the type parameter unbound) is excluded from logged projections and pinned.", "12/C09", "vp-abi"),
+ "C10": ("proptest layout-biased type/value generator + invalid-byte generator; oracle: raw memory == reference encoding whenever the program reports the type trivially en/decodable; invalid bytes must abort",
+         "Exploration: 400 (quick) / 10k (thorough) type trees in four modes (likely-trivial, near-miss, general fixed, general dynamic) x 8 values + invalid inputs (bool bytes 2..255, enum tags >= variant count incl. 2^63 / u64::MAX, truncated, random): the script logs is_encode_trivial / is_decode_trivial, raw memory, encode(x), abi_decode(raw); classified-trivial types must have memory == canonical bytes, and bytes the reference decoder rejects must abort before anything is logged or returned.",
+         "Constrains only types the program itself classifies as trivial; truncated input may abort or yield a valid value (BufferReader carries no length).", "12/C10", "vp-abi"),
+ "C13": ("proptest configurable-set generator; oracle: bytecode patched at the JSON ABI offsets with reference-encoded replacements, run on the FuelVM, observed values vs. model",
+         "Exploration: 400 (quick) / 8000 (thorough) scripts with 1-10 configurables of fixed-size types (incl. enums, empty structs; declaration order != name order) and neighbouring constants, 5 patch sets each (none, one, subset, all, another one): patched configurables must read the new value, all others and the neighbouring constant their compiled-in ones; slots must lie inside the binary, be pairwise disjoint and not precede the prelude's configurables offset.",
+         "Scripts only (no contract variant); fixed-size types only (the compiler rejects str in configurables).", "12/C13", "vp-abi"),
+ "C15": ("generated workspaces built by the real forc in k fresh processes; oracle: byte-identical bytecode, JSON ABI, storage slots and derived ids across processes",
+         "Exploration: 5 (quick) / 40 (thorough) generated workspaces of 10 members (generated scripts, templated contracts with storage/configurables/generics/duplicate helpers/many constants, predicates, a library) + corpus packages, debug and release, each built in k = 3 (quick) / 6 (thorough) fresh processes (different hash seeds); sha256 of bytecode, ABI JSON text, storage-slot JSON, contract id / predicate root and written artefacts must match.",
+         "Same machine and paths; thread timing not varied; detection power against a 2-way order flip is 1 - 2^-(k-1) per affected package.", "12/C15", "vp-proc"),
+ "C25": ("proptest schedules over real processes stepped through cfg hooks in fs_locking (+ SIGKILL crash points); history-invariant oracle evaluated on the real execution",
+         "Exploration: 9 pinned + 192 enumerated + 240 random (quick) / 4800 + 4000 (thorough) histories of 2-3 real processes (mark, unmark, is_file_dirty, cleanup, lock/release on a handle, exit, optional SIGKILL; flags pre-seeded stale / empty) interleaved at the step points between the file-system operations: a flag held by a live process must be seen by every check lying inside the hold interval and by a fresh observer at the end; flags of dead owners must read clean; no actor may fail.",
+         "Interleavings at hook granularity only; no pid reuse; liveness is what the real `ps` reports. Six recorded signatures (two root causes: stale-flag removal ABA, concurrent lock) are attributed by controller-side reads of the flag files.", "12/C25", "vp-proc"),
+ "C30": ("enumeration of every fault point (abort / io::Error) of a git fetch through cfg hooks, in child processes, followed by a fresh build; oracle: resolved checkout == tree of the pinned commit",
+         "Fault enumeration: 4 pinned + 1 random (quick) / 4 + 60 (thorough, plus second faults during recovery) generated local git repositories (1-26 files, nested dirs, 1-3 commits, tag/branch/rev/default references, with and without Forc.lock): every fault label on the path of pin + fetch x {process abort, io::Error} (354 pairs quick) is injected in a child process with a fresh HOME, then a fresh process runs a normal plan + check, which must succeed against exactly the pinned commit's tree.",
+         "Process death with the page cache intact (no power-loss semantics); crash points inside libgit2's checkout are the per-file progress callback; upstream unchanged between fault and recovery.", "12/C30", "vp-proc"),
  "C11": ("proptest contract-ABI generator (adversarial method names) + generated in-VM callers through forc-test; reference-model oracle on logs, return values and revert status",
          "Exploration: 128 (quick) / 3000 (thorough) generated contracts (1-12 methods, names sharing prefixes / lengths / substrings, 0-4 arguments of generated ABI types, optional fallback) built by the real forc and called in-VM from generated #[test]s (~1.8k calls quick): the harness predicts the exact log sequence (method index, decoded arguments, returned value in encoding v1) and end state of every test; unknown names must run the fallback or revert.",
          "Type trees depth <= 2; any revert code accepted for an unknown method; coins/gas at defaults.", "12/C11", "vp-contract"),
@@ -57,9 +78,7 @@ CHECKS = {
          "Exploration: 150k (quick) / 6M (thorough) edit histories (1-29 full and incremental changes, multi-byte and astral characters, mixed line ends, invalid ranges) applied through Documents::update_text_document; server text must equal the reference client's after every step, invalid ranges must be rejected unchanged, nothing may panic.",
          "Lone CR line ends are not generated; sloppy columns (past end of line, inside a surrogate pair) are crash-freedom only.", "4/C23", "vp-lsp"),
 }
-NA = {
- "C01": "a reference interpreter for the generated fragment exists in harness/vp (swaygen::Interp) but its disagreements with the VM have not been triaged to the standard needed to rule out false alarms, so the check is not claimed; C02 and C17 run the same generator",
-}
+NA = {}
 # checks that are finished (silent on the unchanged tree over several seeds, sensitivity-tested); others stay unclaimed
 READY = set(open('/verif/tools/ready.txt').read().split())
 CHECKS = {k: v for k, v in CHECKS.items() if k in READY}
